@@ -39,6 +39,29 @@ def case(spec, log):
         return {}
 
     def quiescent_check(tag):
+        # first from fresh plain threads (they inherit the thread identifiers of threads that have finished - workers
+        # included), against the liveness established in this thread beforehand
+        alive_here = set(id(w) for w in workers.values() if w.is_alive())
+        if server is not None and server.is_alive():
+            alive_here.add(id(server))
+        for _ in range(2):
+            box = {}
+
+            def from_helper():
+                try:
+                    box['got'] = [id(w) for w in Worker.active_children()]
+                except BaseException as e:  # noqa
+                    box['exc'] = repr(e)[:100]
+            ht = threading.Thread(target=from_helper)
+            ht.start()
+            ht.join(60)
+            stats['helper_thread_sweeps'] = stats.get('helper_thread_sweeps', 0) + 1
+            if 'exc' in box:
+                problems.append({'kind': 'sweep-from-another-thread-raised', 'at': tag, 'example': box['exc']})
+            elif set(box.get('got', [])) - alive_here:
+                problems.append({'kind': 'dead-worker-yielded-to-another-thread', 'at': tag, 'n': len(set(box['got']) - alive_here)})
+            elif alive_here - set(box.get('got', [])):
+                problems.append({'kind': 'live-worker-missing-for-another-thread', 'at': tag, 'n': len(alive_here - set(box['got']))})
         got = list(Worker.active_children())
         stats['checks'] += 1
         stats['max_registry'] = max(stats['max_registry'], len(Worker._active_children))
@@ -347,6 +370,7 @@ def run(tier):
         n = 40 if cls == 'PersistentThreadWorker' else 6
         jobs.append(dict(ops=[['create', cls, 'loop'], ['create', cls, 'loop'], ['restart_race', n], ['check'], ['restart_race', n], ['check'], ['autoclose'], ['check']], heavy=cls != 'PersistentThreadWorker'))
         jobs.append(dict(ops=[['create', cls, 'quick'], ['create', cls, 'loop'], ['finish'], ['check'], ['restart_race', n], ['check'], ['drop'], ['check'], ['autoclose'], ['check']], heavy=cls != 'PersistentThreadWorker'))
+    jobs.append(dict(ops=[['create', 'ThreadWorker', 'quick'] for _ in range(6)] + [['create', 'PersistentThreadWorker', 'loop'], ['finish'], ['check'], ['create', 'ThreadWorker', 'quick'], ['finish'], ['check'], ['drop'], ['check']], heavy=False))
     jobs.append(dict(ops=[['create', 'ThreadWorker', 'loop'], ['restart_fail'], ['check'], ['restart_fail'], ['check'], ['autoclose'], ['check'], ['drop'], ['check']], heavy=False))
     wd = workdir('c19')
 
